@@ -8,6 +8,7 @@ CHECKS = {
     'C12': ('cycles_check', 'C12'),
     'C13': ('cycles_check', 'C13'),
     'C16': ('maps_check', None),
+    'C05': ('extrema_check', None),
     'C10': ('spectra_check', 'C10'),
     'C11': ('spectra_check', 'C11'),
 }
@@ -32,4 +33,12 @@ def main():
 
 
 if __name__ == '__main__':
-    main()
+    try:
+        main()
+    except SystemExit:
+        raise
+    except BaseException:          # a crash of the machinery is never a verdict about the property
+        import traceback
+        traceback.print_exc()
+        print('MACHINERY-ERROR uncaught exception in the harness', flush=True)
+        sys.exit(2)
